@@ -1,8 +1,209 @@
-/-! stub driver: answers "bad-op" to every line until the family's model is wired in -/
-partial def loop (h : IO.FS.Stream) : IO Unit := do
+import NbioVerif.Model.Deadline
+import NbioVerif.DrvCommon
+/-!
+dldrv — runs the Deadline model M8 on the annotated op lines of `hdeadline`.
+
+The harness executes every op at a real time and annotates it with what it observed:
+  `at=<µs>`   monotonic time just before the call, `at2=<µs>` just after it (µs since the case started),
+  `st=open | <kind>:<µs>`    state of the conn just before the call (kind and time from the close notification),
+  `post=open | <kind>:<µs>`  state just after it.
+Times are *inputs* (the environment's nondeterminism); the outputs compared are only kinds and their order.
+
+The driver resolves the model's nondeterminism in favour of possibility: an observed timeout close is accepted
+iff some schedule of `tick/fire/cb` consistent with the observed times produces it (deadlines are taken at their
+earliest possible value `at + d`, observations at the time the close notification ran, so an accepted close is
+never a false alarm and a refused one is early/stale in every schedule). Before an op that touches a direction
+whose timer is already due, `fire` is inserted (the runtime may have started the callback: two-step fire).
+-/
+open Deadline
+
+structure DS where
+  g    : Cfg
+  s    : St
+  ka   : Nat     -- µs
+  wt   : Nat     -- µs
+
+
+def kindOf : Option Cause → String
+  | none => "open"
+  | some .user => "user"
+  | some .ioerr => "io"
+  | some (.timeout .r) => "rt"
+  | some (.timeout .w) => "wt"
+
+def tickTo (s : St) (t : Nat) : St := if t > s.now then s.withNow t else s
+
+/-- index of the first started callback of direction d -/
+def pendIdx (s : St) (d : Dir) : Option Nat :=
+  let rec go : List Rec → Nat → Option Nat
+    | [], _ => none
+    | r :: rs, i => if r.dir == d then some i else go rs (i + 1)
+  go s.pend 0
+
+/-- try to close by d's timeout at time t: started callback, else fire-then-callback -/
+def tryTimeout (g : Cfg) (s : St) (d : Dir) (t : Nat) : Option St :=
+  let s := tickTo s t
+  match pendIdx s d with
+  | some i => step g s (.cb i)
+  | none =>
+    match step g s (.fire d) with
+    | some s' =>
+      match pendIdx s' d with
+      | some i => step g s' (.cb i)
+      | none => none
+    | none => none
+
+inductive Obs | open | closed (kind : String) (t : Nat)
+
+def parseObs (o : Option String) : Obs :=
+  match o with
+  | none => .open
+  | some v =>
+    match v.splitOn ":" with
+    | [k, t] => .closed k t.toNat!
+    | _ => .open
+
+/-- reconcile the model with an observation; returns the new state and the kind the model reports -/
+def reconcile (g : Cfg) (s : St) (o : Obs) : St × String :=
+  match o with
+  | .open => (s, kindOf s.cause)
+  | .closed k t =>
+    if s.closed then (s, kindOf s.cause)
+    else
+      let dir? : Option Dir := if k == "rt" then some .r else if k == "wt" then some .w else none
+      match dir? with
+      | some d =>
+        match tryTimeout g s d t with
+        | some s' => (s', kindOf s'.cause)
+        | none =>
+          let why := match (s.t d).a with
+            | some _ => "REFUSED-early"
+            | none => "REFUSED-stale"
+          (closeWith s .user none, why)
+      | none => (closeWith s .user none, "REFUSED-unexpected")
+
+/-- the runtime may already have started the callback of a due timer of `d` when an op touching `d` runs -/
+def mayFire (g : Cfg) (s : St) (d : Dir) : St :=
+  match step g s (.fire d) with
+  | some s' => s'
+  | none => s
+
+def touched : Op → List Dir
+  | .set d _ => [d]
+  | .clear d => [d]
+  | .setBoth _ => [.r, .w]
+  | .clearBoth => [.r, .w]
+  | .ka _ => [.r]
+  | .wto _ => [.w]
+  | .write _ => [.w]
+  | .flush _ => [.w]
+  | .close => [.r, .w]
+  | _ => []
+
+def applyOp (g : Cfg) (s : St) (o : Op) : St :=
+  let s := (touched o).foldl (mayFire g) s
+  match step g s o with
+  | some s' => s'
+  | none => s
+
+def isTimeoutObs : Obs → Bool
+  | .closed k _ => k == "rt" || k == "wt"
+  | .open => false
+
+/-- st / op at `at` / post, with the "timeout won the race against the op" order tried first -/
+def runOp (g : Cfg) (s : St) (ops : List Op) (at_ : Nat) (st post : Obs) : St × String × String :=
+  let (s, k1) := reconcile g s st
+  let s := tickTo s at_
+  let early : Option (St × String) :=
+    if !s.closed && isTimeoutObs post then
+      match post with
+      | .closed k t =>
+        let d := if k == "rt" then Dir.r else Dir.w
+        match tryTimeout g s d t with
+        | some s' => some (ops.foldl (applyOp g) s', kindOf s'.cause)
+        | none => none
+      | .open => none
+    else none
+  match early with
+  | some (s', k2) => (s', k1, k2)
+  | none =>
+    let s := ops.foldl (applyOp g) s
+    let (s, k2) := reconcile g s post
+    (s, k1, k2)
+
+def kOf (s : String) : Option K :=
+  if s == "full" then some .full else if s == "short" then some .short else if s == "err" then some .err else none
+
+def dOf (s : String) : Option Dir := if s == "r" then some .r else if s == "w" then some .w else none
+
+def num (ws : List String) (k : String) : Nat := ((Drv.field ws k).map String.toNat!).getD 0
+
+/-- model ops of one harness line (durations in ms on the line, µs in the model) -/
+def opsOf (ds : DS) (ws : List String) (at_ : Nat) : Option (List Op) :=
+  match ws with
+  | "O" :: "set" :: d :: ms :: _ => (dOf d).map fun d => [.set d (at_ + ms.toNat! * 1000)]
+  | "O" :: "setpast" :: d :: _ => (dOf d).map fun d => [.set d (at_ - 1000)]
+  | "O" :: "both" :: ms :: _ => some [.setBoth (at_ + ms.toNat! * 1000)]
+  | "O" :: "clear" :: d :: _ => (dOf d).map fun d => [.clear d]
+  | "O" :: "clearboth" :: _ => some [.clearBoth]
+  | "O" :: "write" :: k :: _ => (kOf k).map fun k => [.write k]
+  | "O" :: "flush" :: k :: _ => (kOf k).map fun k => [.flush k]
+  | "O" :: "close" :: _ => some [.close]
+  | "O" :: "wait" :: _ => some []
+  -- end-to-end tiers: what the server does, at its earliest possible time
+  | "O" :: "conn" :: _ => some [.set .r (at_ + ds.ka)]
+  | "O" :: "tconn" :: _ => some []                     -- std http.Server: no nbio deadline before the transfer
+  | "O" :: "wsup" :: _ => some [.set .r (at_ + ds.ka)]
+  | "O" :: "msg" :: _ => some [.set .r (at_ + ds.ka)]
+  | _ => none
+
+partial def loop (h : IO.FS.Stream) (ds : DS) : IO Unit := do
   let line ← h.getLine
   if line.isEmpty then return ()
-  IO.println "bad-op"
-  loop h
+  let ws := (line.trimAscii.toString.splitOn " ").filter (· ≠ "")
+  let at_ := num ws "at"
+  let st := parseObs ((Drv.field ws "st").bind fun v => if v == "open" then none else some v)
+  let post := parseObs ((Drv.field ws "post").bind fun v => if v == "open" then none else some v)
+  match ws with
+  | "C" :: _ =>
+    let tree := (Drv.field ws "tree").getD "fixed"
+    let g := if tree == "pinned" then pinned else fixed
+    IO.println "ok"
+    loop h { g, s := init, ka := num ws "ka" * 1000, wt := num ws "wt" * 1000 }
+  | "O" :: "req" :: _ =>
+    -- HTTP exchange: OnComplete arms the write deadline (WriteTimeout), the response is written, the keep-alive
+    -- read deadline is renewed; once the client holds the whole response (at2) the server's queue is empty
+    let at2 := num ws "at2"
+    let (s, k1) := reconcile ds.g ds.s st
+    let s := tickTo s at_
+    let s := if ds.wt > 0 then applyOp ds.g s (.set .w (at_ + ds.wt)) else s
+    match post with
+    | .closed _ _ =>
+      let (s, k2) := reconcile ds.g s post
+      IO.println s!"R st={k1} post={k2}"
+      loop h { ds with s }
+    | .open =>
+      let s := tickTo s at2
+      -- the backlog (if any) has been flushed: a write that leaves a backlog followed by the draining flush
+      let s := [Op.write .short, Op.flush .full, Op.set .r (at_ + ds.ka)].foldl (applyOp ds.g) s
+      IO.println s!"R st={k1} post={kindOf s.cause}"
+      loop h { ds with s }
+  | "O" :: _ =>
+    match opsOf ds ws at_ with
+    | some ops =>
+      let (s, k1, k2) := runOp ds.g ds.s ops at_ st post
+      IO.println s!"R st={k1} post={k2}"
+      loop h { ds with s }
+    | none => IO.println "bad-op"; loop h ds
+  | "Q" :: _ =>
+    let gbound := num ws "g" * 1000
+    let (s, k1) := reconcile ds.g ds.s st
+    let s := tickTo s at_
+    let od (d : Dir) : Bool := !s.closed && (match (s.t d).a with | some w => w + gbound ≤ s.now | none => false)
+    let overdue := if od .r then "r" else if od .w then "w" else "-"
+    IO.println s!"R st={k1} overdue={overdue}"
+    loop h { ds with s }
+  | _ => IO.println "bad-op"; loop h ds
 
-def main : IO Unit := do loop (← IO.getStdin)
+def main : IO Unit := do
+  loop (← IO.getStdin) { g := fixed, s := init, ka := 0, wt := 0 }
